@@ -341,6 +341,18 @@ pub fn check(cfg: CheckCfg) -> i32 {
         exit = 2;
     }
     let mine: Vec<&Found> = br.found.iter().filter(|f| f.oracle.starts_with(&tag_of(&prop))).collect();
+    // oracles of OTHER properties that fired in this batch are not this check's verdict, but they are not silence
+    // either: list them (the owning property's generator should be able to produce the same workload)
+    {
+        let mut other: BTreeMap<String, (usize, u64)> = BTreeMap::new();
+        for f in br.found.iter().filter(|f| !f.oracle.starts_with(&tag_of(&prop)) && !f.oracle.starts_with("HARNESS.")) {
+            let e = other.entry(f.oracle.clone()).or_insert((0, f.idx));
+            e.0 += 1;
+        }
+        for (o, (n, idx)) in other.iter() {
+            println!("NOTE: oracle {o} of another property fired in {n} report(s) of this batch (e.g. run {idx}); not judged by this check");
+        }
+    }
     let mut by_oracle: BTreeMap<String, Vec<&Found>> = BTreeMap::new();
     for f in mine.iter() {
         by_oracle.entry(f.oracle.clone()).or_default().push(f);
